@@ -162,6 +162,39 @@ def run(ctx):
         ctx.violate("history:" + k[0], "call %d of history %r gives results different from the same call alone" % (len(hist), hist),
                     dict(history=hist))
     ctx.oblige("spec: every call of %d in-process histories = the same call alone in a fresh interpreter" % len(hist_jobs), not hbad, str(hbad[:1]))
+    # several inputs in ONE invocation of the command-line entry point (propka.run.main shares one options object between them):
+    # the .pka file written for an input is the file written when that input is processed alone with the same options - also with
+    # a --titrate_only list that names residues the earlier inputs lack
+    mbad, mjobs = [], []
+    for k in range(3 if ctx.quick() else 12):
+        lines, ids = pdbgen.multichain(rnd, nchains=1, chains="A", twins=0.0)
+        res = []
+        for l in lines:
+            if pdbgen.is_atom(l) and l[17:20] in ("ASP", "GLU", "LYS", "TYR", "HIS", "ARG") and (int(l[22:26]), l[17:20]) not in res:
+                res.append((int(l[22:26]), l[17:20]))
+        if len(res) < 2:
+            continue
+        gone = res[rnd.randrange(len(res))][0]
+        part = [l for l in lines if not (pdbgen.is_atom(l) and int(l[22:26]) == gone)]
+        full_t, part_t = pdbgen.text(lines), pdbgen.text(part)
+        lst = ",".join("A:%d" % n for n, _ in res)
+        for args in ([], ["-i", lst], ["-i", "A:%d" % gone]):
+            mjobs.append((k, args, [part_t, full_t], [full_t]))
+            mjobs.append((k, args, [full_t, part_t], [part_t]))
+    if mjobs:
+        with ThreadPoolExecutor(max_workers=14) as ex:
+            together = list(ex.map(lambda j: worker(dict(garbage=0, cwd=None, calls=[dict(mode="main", files=j[2], args=j[1])]), 0), mjobs))
+            alone = list(ex.map(lambda j: worker(dict(garbage=0, cwd=None, calls=[dict(mode="main", files=j[3], args=j[1])]), 0), mjobs))
+        for j, t, a in zip(mjobs, together, alone):
+            ctx.case(key=("one invocation", j[0], tuple(j[1]), len(j[2][0]) < len(j[2][1])))
+            ctx.count("inputs processed together with another one in one invocation")
+            if t[0].get("error") != a[0].get("error") or t[0]["files"][-1] != a[0]["files"][-1] or t[0]["files"][-1] is None:
+                mbad.append((j[1], t[0].get("error"), a[0].get("error"), j[2]))
+    for b in mbad[:2]:
+        ctx.violate("one-invocation:" + " ".join(b[0])[:30], "an input processed after another one in one invocation (options %r) gives a .pka file different from the one it gives alone (errors %r / %r)" % (b[0], b[1], b[2]),
+                    dict(args=b[0], files=b[3]))
+    ctx.oblige("spec: an input processed after other inputs in one invocation = the same input processed alone (%d invocations, with and without --titrate_only)" % len(mjobs),
+               not mbad, str([(b[0], b[1], b[2]) for b in mbad[:2]]))
     write_set(ctx, inputs)
     hidden_corr(ctx)
 
